@@ -93,7 +93,7 @@ PROPS['C16'] = dict(
 )
 
 PROPS['C20'] = dict(
-    runs=[run('plain')], shards=16, watchdog=True, level='exploration',
+    runs=[run('plain'), run('race', race=True, shards=1, restart=False, env={'VERIF_PART': 'concurrent'}, race_prop='C20')], shards=16, watchdog=True, level='exploration',
     rule=('lines built through the public fastlog API and compared with the concatenation of reference-rendered fields (strconv, fmt %02x/%04x, '
           'net.HardwareAddr.String, net.IP.String / netip.Addr.String, time.Duration.String, time.Format(StampMilli), fmt %+v): all 65536 uint16 in '
           'decimal and hex, all 256 bytes in decimal/hex/every MAC position/ByteArray, boundary uint32/int, all 256 zero/non-zero masks of the 8 IPv6 '
@@ -453,4 +453,22 @@ _RULE_ADD3 = {
 _RULE_ADD3['C05'] = _RULE_ADD3['C06'] = _RULE_ADD3['C04']
 _RULE_ADD3['C12'] = _RULE_ADD3['C11']
 for _p, _t in _RULE_ADD3.items():
+    PROPS[_p]['rule'] = PROPS[_p]['rule'] + _t
+
+# features added after the tenth round
+for _p, _m in {'C04': {'histories_with_eight_days_uptime': 4}, 'C14': {'starthunt_after_close': 100}, 'C20': {'lines_rendered_concurrently': 500000}}.items():
+    PROPS[_p]['min_obs'] = dict(PROPS[_p]['min_obs'])
+    PROPS[_p]['min_obs']['quick'] = dict(PROPS[_p]['min_obs'].get('quick', {}), **_m)
+_RULE_ADD4 = {
+    'C04': ' One random history in 128 lets eight days pass (11 520 runs of the minute ticker) in its middle.',
+    'C07': ' Replies of the DHCP server must go to the broadcast addresses or to the client\'s hardware address and an address the transaction names (rule dhcp:reply-destination, also reported under C12).',
+    'C08': ' DHCP server messages arrive on the server port and client messages on the client port as well. A worker that makes no progress and uses no CPU for 40 s is asked for its goroutines: if the one running the cases waits on a lock or channel below an irai/packet frame the case is reported as blocked:<frame>.',
+    'C09': ' A goroutine that waits for a library lock at the same place for three seconds is reported as a deadlock even when the rest of the process is busy (a lock that is never released).',
+    'C14': ' After Close half of the histories ask for two more hunts: nothing forged may follow. Route information options may carry the reserved preference (to be ignored).',
+    'C20': ' Lines are rendered by twelve goroutines at once (plain and nested through a Stringer field) and compared; a second run of this part under the race detector reports races inside fastlog (the line pool) under C20.',
+    'C03': ' A zero length UDP payload may be a nil slice.',
+    'C11': ' Scripted beginnings include two clients offered the same address (offer contention) and an address with earlier, expired holders that its new holder releases and asks for again.',
+}
+_RULE_ADD4['C12'] = _RULE_ADD4['C11'] + _RULE_ADD4['C07']
+for _p, _t in _RULE_ADD4.items():
     PROPS[_p]['rule'] = PROPS[_p]['rule'] + _t
